@@ -1,2 +1,49 @@
-From Furax Require Import Lemmas.Sound.
-Example placeholder_c01 : True. Proof. exact I. Qed.
+(* C01 - reducing an operator never changes the linear map it denotes.
+   Statements only; proofs are `exact <lemma>` (Lemmas/Sound.v).
+   `leaf_facts leafsem` lists the facts of linear algebra about the leaf operators (primitives and
+   opaque user operators) that the rules rely on; reduce() itself, the rule registry (in ANY order:
+   `order` is universally quantified), the scan with its index bookkeeping, the scalar/identity
+   rules, the block rules with their nested reductions and the model of `@` are verified. *)
+From Coq Require Import List Ring.
+From Furax Require Import Base.Pytree Model.Op Model.Algebra Model.Denote Lemmas.DenoteL Lemmas.Sound.
+Import ListNotations.
+
+Section C01.
+  Variable K : Type.
+  Variables (k0 k1 : K) (kadd kmul ksub : K -> K -> K) (kopp : K -> K).
+  Hypothesis Kth : ring_theory k0 k1 kadd kmul ksub kopp (@eq K).
+  Variable keqb : K -> K -> bool.
+  Hypothesis keqb_eq : forall a b, keqb a b = true -> a = b.
+  Variable leafsem : op K -> value K -> option (value K).
+  Hypothesis LF : leaf_facts K kadd kmul leafsem.
+
+  (* For every expression tree e (any depth, any operand kinds), every order of the rule registry
+     and every fuel for which reduce returns an operator e': every input on which e can be applied
+     gives the same result through e'. *)
+  Theorem reduce_sound : forall fuel order e e',
+    reduce keqb k1 kmul fuel order e = Ok e' ->
+    forall x y, denote kadd kmul leafsem e x = Some y -> denote kadd kmul leafsem e' x = Some y.
+  Proof. exact (reduce_sound_l K k0 k1 kadd kmul ksub kopp Kth keqb keqb_eq leafsem LF). Qed.
+
+  (* each registered binary rule, fired on any adjacent pair *)
+  Theorem every_rule_sound : forall rr ru l r new,
+    (forall e e', rr e = Ok e' -> den_le kadd kmul leafsem e e') ->
+    guard_ok keqb (guard_of ru) l r = true ->
+    apply_rule keqb kmul rr ru l r = Ok (Some new) ->
+    chain_le kadd kmul leafsem [l; r] new.
+  Proof. exact (fun rr ru l r new H => rule_sound K k0 k1 kadd kmul ksub kopp Kth keqb keqb_eq leafsem LF rr H ru l r new). Qed.
+
+  (* the scan, for any number of firings and any index policy outcome *)
+  Theorem scan_preserves_map : forall rr fuel order ops index res,
+    (forall e e', rr e = Ok e' -> den_le kadd kmul leafsem e e') ->
+    scan keqb k1 kmul rr fuel order ops index = Ok res -> chain_le kadd kmul leafsem ops res.
+  Proof. exact (fun rr fuel order ops index res H => scan_sound K k0 k1 kadd kmul ksub kopp Kth keqb keqb_eq leafsem LF rr H fuel order ops index res). Qed.
+
+  Theorem scalar_relocation_sound : forall ops,
+    chain_le kadd kmul leafsem ops (homothety_rule k1 kmul ops).
+  Proof. exact (homothety_rule_sound K k0 k1 kadd kmul ksub kopp Kth leafsem LF). Qed.
+End C01.
+Print Assumptions reduce_sound.
+Print Assumptions every_rule_sound.
+Print Assumptions scan_preserves_map.
+Print Assumptions scalar_relocation_sound.
